@@ -67,7 +67,7 @@ impl<M> Built<M> {
 }
 
 pub trait Node: 'static {
-	type M: Writeable + LengthReadable + PartialEq + Clone + Debug;
+	type M: Writeable + LengthReadable + PartialEq + Clone + Debug + lightning::ln::wire::Type;
 	const NAME: &'static str;
 	const TAIL: Tail;
 	/// TLV types the message defines (for `Tail::Tlv`)
@@ -599,15 +599,31 @@ node!(RevokeAndACKN, RevokeAndACK, Tail::Tlv, [75537], |g| {
 	let paths = (0..n)
 		.map(|_| {
 			let hops = 1 + g.r.below(4) as usize;
-			let blinded_hops = (0..hops)
+			let blinded_hops: Vec<BlindedHop> = (0..hops)
 				.map(|_| {
 					let l = g.vlen(100);
 					BlindedHop { blinded_node_id: g.pk(), encrypted_payload: g.bytes(l) }
 				})
 				.collect();
-			(g.u64v(), BlindedMessagePath::from_blinded_path(g.pk(), g.pk(), blinded_hops))
+			let hops_v: Vec<BlindedHop> = blinded_hops;
+			if g.r.below(3) == 0 {
+				// introduction node given as (direction, scid): no public constructor, so lay the
+				// bytes out by hand (BOLT-4 blinded path) and read them
+				let mut b = vec![g.r.below(2) as u8];
+				b.extend_from_slice(&g.u64v().to_be_bytes());
+				b.extend_from_slice(&g.pk().serialize());
+				b.push(hops_v.len() as u8);
+				for h in hops_v.iter() {
+					b.extend_from_slice(&h.blinded_node_id.serialize());
+					b.extend_from_slice(&(h.encrypted_payload.len() as u16).to_be_bytes());
+					b.extend_from_slice(&h.encrypted_payload);
+				}
+				let p = <BlindedMessagePath as Readable>::read(&mut &b[..]).map_err(|e| format!("BlindedMessagePath from bytes: {:?}", e))?;
+				return Ok((g.u64v(), p));
+			}
+			Ok((g.u64v(), BlindedMessagePath::from_blinded_path(g.pk(), g.pk(), hops_v)))
 		})
-		.collect();
+		.collect::<Result<Vec<_>, String>>()?;
 	let m = RevokeAndACK {
 		channel_id: g.channel_id(),
 		per_commitment_secret: g.arr32(),
